@@ -153,6 +153,33 @@ pub fn run(ctx: &Ctx) {
             out.case(&tagged, &imp_sx, false);
         }
     }
+    // many per-metric dimension sets in one entry (one record each), the same metric name in all of them — valid — and
+    // then once more under the k-th set — a duplicate, whatever k is (the bookkeeping of "which records already have
+    // this name" must not have a width)
+    for &nsets in if ctx.tier_thorough { &[1usize, 2, 31, 32, 33, 62, 63, 64, 65, 66, 100, 127, 128, 129, 200][..] } else { &[2usize, 33, 63, 64, 65, 130][..] } {
+        let mut cfg = gen_config(&mut rng);
+        cfg.ctor = *rng.pick(&[Ctor::AllValidations, Ctor::AllValidations, Ctor::Builder]);
+        cfg.allow_ignored = false;
+        let mut base = vec![Item::Timestamp(1_700_000_000_000_000_000), Item::Config(CItem::Split)];
+        for d in cfg.default_dims.concat() {
+            if !base.iter().any(|i| matches!(i, Item::Value(n, _) if *n == d)) { base.push(Item::Value(d, VCall::Str("dimvalue".into()))); }
+        }
+        base.push(Item::Value("Global".into(), metric1()));
+        for i in 1..=nsets {
+            base.push(Item::Value("Latency".into(), VCall::Metric(vec![Obs::U(i as u64)], UnitS::None, vec![("shard".into(), format!("s{i}"))], Flag::None)));
+        }
+        out.count("many_dimension_sets");
+        run_one(&mut out, &cfg, &Call { rate_exp: None, items: base.clone(), script: vec![] }, None);
+        let mut ks = vec![1, nsets / 2 + 1, nsets.saturating_sub(1).max(1), nsets];
+        ks.dedup();
+        for k in ks {
+            let mut it = base.clone();
+            it.push(Item::Value("Latency".into(), VCall::Metric(vec![Obs::U(9999)], UnitS::None, vec![("shard".into(), format!("s{k}"))], Flag::None)));
+            if rng.chance(1, 2) { it.push(Item::Value("After".into(), metric1())); }
+            out.count("many_dimension_sets_duplicate");
+            run_one(&mut out, &cfg, &Call { rate_exp: None, items: it, script: vec![] }, Some(Defect::DupMetricMetric));
+        }
+    }
     // sequences on one validating formatter: a rejected entry (often a split one with per-metric dimensions) followed by
     // valid entries that reuse its names and dimension sets — rejection must leave no trace, valid output must stay
     // byte-identical to the non-validating formatter and free of duplicate members
